@@ -880,6 +880,136 @@ variant("mail-flags-under-one-nil-check",
 			sb.WriteString(" SMTPUTF8")
 		}
 	}"""))
+variant("mail-guards-swapped",
+  ("conn.go", """	if c.helo == "" {
+		c.writeResponse(502, EnhancedCode{5, 5, 1}, "Please introduce yourself first.")
+		return
+	}
+	if c.bdatPipe != nil {
+		c.writeResponse(502, EnhancedCode{5, 5, 1}, "MAIL not allowed during message transfer")
+		return
+	}
+""", """	if c.bdatPipe != nil {
+		c.writeResponse(502, EnhancedCode{5, 5, 1}, "MAIL not allowed during message transfer")
+		return
+	}
+	if c.helo == "" {
+		c.writeResponse(502, EnhancedCode{5, 5, 1}, "Please introduce yourself first.")
+		return
+	}
+"""))
+variant("errcount-plus-equals",
+  ("conn.go", """	c.errCount++
+	if c.errCount > errThreshold {""", """	c.errCount += 1
+	if c.errCount > errThreshold {"""))
+variant("setsession-explicit-unlock",
+  ("conn.go", """	c.locker.Lock()
+	defer c.locker.Unlock()
+	c.session = session
+}""", """	c.locker.Lock()
+	c.session = session
+	c.locker.Unlock()
+}"""))
+variant("loop-until-closed",
+  ("server.go", """	for {
+		// QUIT, too many errors or a backend panic close the connection
+		// while further commands may already be buffered: they must not
+		// be executed.
+		if c.isClosed() {
+			return nil
+		}
+
+		line, err := c.readLine()""", """	// QUIT, too many errors or a backend panic close the connection
+	// while further commands may already be buffered: they must not
+	// be executed.
+	for !c.isClosed() {
+		line, err := c.readLine()"""),
+  ("server.go", """			c.writeResponse(421, EnhancedCode{4, 4, 0}, "Connection error, sorry")
+			return err
+		}
+	}
+}""", """			c.writeResponse(421, EnhancedCode{4, 4, 0}, "Connection error, sorry")
+			return err
+		}
+	}
+	return nil
+}"""))
+variant("backoff-cap-constant",
+  ("server.go", """				if max := 1 * time.Second; tempDelay > max {
+					tempDelay = max
+				}""", """				const maxDelay = time.Second
+				if tempDelay > maxDelay {
+					tempDelay = maxDelay
+				}"""))
+variant("no-rcpt-len-lt-one",
+  ("conn.go", """	if !c.fromReceived || len(c.recipients) == 0 {
+		// RFC 3030""", """	if !c.fromReceived || len(c.recipients) < 1 {
+		// RFC 3030"""))
+variant("lmtp-emit-index-loop",
+  ("conn.go", """	for i, rcpt := range c.recipients {
+		code, enchCode, msg := dataErrorToStatus(<-status.status[i])
+		c.writeResponse(code, enchCode, "<"+rcpt+"> "+msg)
+	}""", """	for i := range c.recipients {
+		rcpt := c.recipients[i]
+		code, enchCode, msg := dataErrorToStatus(<-status.status[i])
+		c.writeResponse(code, enchCode, "<"+rcpt+"> "+msg)
+	}"""))
+variant("writeresponse-lines-var",
+  ("conn.go", """	text = strings.Split(strings.Join(text, "\\n"), "\\n")
+
+	lastLineIndex := len(text) - 1
+	for i := 0; i < lastLineIndex; i++ {
+		// RFC 2034: the enhanced code is repeated on every line.
+		if enhCode == NoEnhancedCode {
+			c.text.PrintfLine("%d-%v", code, text[i])
+		} else {
+			c.text.PrintfLine("%d-%v.%v.%v %v", code, enhCode[0], enhCode[1], enhCode[2], text[i])
+		}
+	}
+	if enhCode == NoEnhancedCode {
+		c.text.PrintfLine("%d %v", code, text[lastLineIndex])
+	} else {
+		c.text.PrintfLine("%d %v.%v.%v %v", code, enhCode[0], enhCode[1], enhCode[2], text[lastLineIndex])
+	}""", """	lines := strings.Split(strings.Join(text, "\\n"), "\\n")
+
+	lastLineIndex := len(lines) - 1
+	for i := 0; i < lastLineIndex; i++ {
+		// RFC 2034: the enhanced code is repeated on every line.
+		if enhCode == NoEnhancedCode {
+			c.text.PrintfLine("%d-%v", code, lines[i])
+		} else {
+			c.text.PrintfLine("%d-%v.%v.%v %v", code, enhCode[0], enhCode[1], enhCode[2], lines[i])
+		}
+	}
+	if enhCode == NoEnhancedCode {
+		c.text.PrintfLine("%d %v", code, lines[lastLineIndex])
+	} else {
+		c.text.PrintfLine("%d %v.%v.%v %v", code, enhCode[0], enhCode[1], enhCode[2], lines[lastLineIndex])
+	}"""))
+variant("client-rcpt-comma-fprintf",
+  ("client.go", """				if i != 0 {
+					sb.WriteString(",")
+				}
+				sb.WriteString(string(v))""", """				if i != 0 {
+					sb.WriteByte(',')
+				}
+				sb.WriteString(string(v))"""))
+variant("data-guards-switch",
+  ("conn.go", """	if c.bdatPipe != nil {
+		c.writeResponse(502, EnhancedCode{5, 5, 1}, "DATA not allowed during message transfer")
+		return
+	}
+	if c.binarymime {
+		c.writeResponse(502, EnhancedCode{5, 5, 1}, "DATA not allowed for BINARYMIME messages")
+		return
+	}""", """	switch {
+	case c.bdatPipe != nil:
+		c.writeResponse(502, EnhancedCode{5, 5, 1}, "DATA not allowed during message transfer")
+		return
+	case c.binarymime:
+		c.writeResponse(502, EnhancedCode{5, 5, 1}, "DATA not allowed for BINARYMIME messages")
+		return
+	}"""))
 if sys.argv[1:] == ['--export']:
     out = [{"id": "benign-" + n, "edits": [{"file": f, "old": o, "new": w} for f, o, w in V[n]]} for n in V]
     json.dump(out, open('/verif/liveness/benign.json', 'w'), indent=1)
